@@ -288,7 +288,15 @@ impl Builder {
                 let n = self.payload_len(thorough);
                 ClaimsSpec::RawC { bytes: self.bytes(n) }
             }
-            6 | 7 => ClaimsSpec::Json { value: self.json_object() },
+            6 => ClaimsSpec::Json { value: self.json_object() },
+            7 => {
+                if self.rng.bool() {
+                    ClaimsSpec::Json { value: self.json_object() }
+                } else {
+                    // an application type (128-bit integers, enums, tuples, ...) behind the Json wrapper
+                    ClaimsSpec::Typed { seed: self.ev_seed() }
+                }
+            }
             8 => ClaimsSpec::Reg { claims: self.reg_claims() },
             _ => ClaimsSpec::RegNow {
                 ttl_s: self.rng.below(100_000),
